@@ -642,6 +642,85 @@ const EDGE_STATEMENTS: [&str; 24] = [
 ];
 
 impl C03 {
+    /// Every place that takes a number -- function arguments, subscripts, DIM bounds, ON selectors, FOR bounds and
+    /// steps, line-number operands, TAB / SPC -- fed the edges of each numeric type, directly and through variables
+    /// of every type. Whatever the statement does, it must be a value or a BASIC error and the prompt must return.
+    fn boundary_args_case(&self, rng: &mut Rng, ctx: &mut Ctx) {
+        const TEMPLATES: [&str; 44] = [
+            "PRINT TAB({});\"X\"", "PRINT SPC({});\"X\"", "PRINT STRING$({},\"ab\")", "PRINT STRING$(3,{})", "PRINT STRING$({},{})",
+            "PRINT LEFT$(\"héllo\",{})", "PRINT RIGHT$(\"héllo\",{})", "PRINT MID$(\"héllo\",{})", "PRINT MID$(\"héllo\",{},{})", "PRINT MID$(\"héllo\",2,{})",
+            "A$=\"héllo\":MID$(A$,{})=\"xy\":PRINT A$", "A$=\"héllo\":MID$(A$,{},{})=\"xyz\":PRINT A$", "PRINT CHR$({})", "PRINT HEX$({});OCT$({})", "PRINT INSTR({},\"banana\",\"an\")",
+            "DIM Q({}):Q({})=1:PRINT Q({})", "DIM R(3,{}):R(1,{})=2:PRINT R(1,{})", "Q(3)=4:PRINT Q({})", "ERASE Q:DIM Q({},{})", "ON {} GOTO 10,20",
+            "ON {} GOSUB 10", "FOR I={} TO {}:NEXT:PRINT I", "FOR I%={} TO {} STEP {}:NEXT:PRINT I%", "FOR I=1 TO 3 STEP {}:PRINT I;:NEXT", "PRINT POS({})",
+            "PRINT CINT({});FIX({});INT({})", "PRINT {} MOD {}", "PRINT {}\\{}", "PRINT {} AND {};{} OR {};NOT {}", "PRINT -({});ABS({})",
+            "LIST {}", "LIST {}-{}", "DELETE {}", "RESTORE {}", "GOTO {}",
+            "RUN {}", "RENUM {},{},{}", "PRINT RND({})", "PRINT SQR({});LOG({});EXP({})", "PRINT {}^{}",
+            "A%={}:PRINT A%", "PRINT STR$({});VAL(STR$({}))", "PRINT SPC({});TAB({});POS(0)", "PRINT LEN(STRING$({},65))",
+        ];
+        const VALUES: [&str; 34] = [
+            "-32768", "-32767-1", "-32767", "-256", "-255", "-1", "-0.5", "0", "0.5", "1", "2.99999999#", "254", "255", "256", "257", "32766", "32767", "32767.5",
+            "32767.99#", "32768", "40000", "65529", "65530", "65535", "65536", "1E10", "-1E10", "1D300", "1/0", "0/0", "&H7FFF", "&HFFFF", "-&H7FFF-1", "3.4E38*10",
+        ];
+        let mut s = Session::new();
+        let mut script: Vec<String> = vec![];
+        s.drain(8);
+        for l in ["10 PRINT \"T\";:RETURN", "20 PRINT \"U\":END", "30 DATA 1,2"] {
+            s.command(l, 8);
+        }
+        for _ in 0..rng.range(2, 7) {
+            let t = *rng.pick(&TEMPLATES);
+            let through_var = rng.chance(1, 3);
+            let mut st = String::new();
+            let mut pre = String::new();
+            let mut k = 0;
+            let mut rest = t;
+            while let Some(i) = rest.find("{}") {
+                st.push_str(&rest[..i]);
+                rest = &rest[i + 2..];
+                let v = *rng.pick(&VALUES);
+                if through_var && !t.starts_with("LIST") && !t.starts_with("DELETE") && !t.starts_with("RESTORE") && !t.starts_with("GOTO") && !t.starts_with("RUN") && !t.starts_with("RENUM") {
+                    let name = format!("V{}{}", k, rng.pick(&["%", "!", "#", ""]));
+                    pre.push_str(&format!("{}={}:", name, v));
+                    st.push_str(&name);
+                    k += 1;
+                } else {
+                    st.push_str(v);
+                }
+            }
+            st.push_str(rest);
+            let line = format!("{}{}", pre, st);
+            guard!(script, format!("enter {:?}", line), s.enter(&line));
+            let mut at_prompt = false;
+            for _ in 0..60 {
+                match guard!(script, format!("execute {}", QBIG), s.step_q(QBIG)) {
+                    Some(Stop::Stopped) => {
+                        at_prompt = true;
+                        break;
+                    }
+                    Some(Stop::Input(..)) | Some(Stop::Inkey) => {
+                        guard!(script, "enter \"1\"".to_string(), s.enter("1"));
+                    }
+                    _ => {}
+                }
+            }
+            if !at_prompt {
+                // a long loop (FOR I=-1E10 TO 1E10): the user presses break; a line is only typed at the prompt
+                guard!(script, "interrupt".to_string(), s.interrupt());
+                for _ in 0..64 {
+                    if let Some(Stop::Stopped) = guard!(script, format!("execute {}", QBIG), s.step_q(QBIG)) {
+                        at_prompt = true;
+                        break;
+                    }
+                }
+                if !at_prompt {
+                    break;
+                }
+            }
+            ctx.count("boundary_argument_statements");
+        }
+        finish_session(&mut s, &mut script, ctx);
+    }
+
     /// A program that stops a few opcodes short of the code pool's limit (sized through the probe), then direct
     /// statements of 1..60 opcodes that do or do not fit behind it, then more lines and commands.
     fn nearly_full_case(&self, rng: &mut Rng, ctx: &mut Ctx) {
@@ -710,6 +789,9 @@ impl C03 {
         }
         if rng.chance(1, 4) {
             return self.big_temp_case(rng, ctx);
+        }
+        if rng.chance(1, 4) {
+            return self.boundary_args_case(rng, ctx);
         }
         if rng.chance(1, 4) {
             return self.mid_input_case(rng, ctx);
